@@ -281,9 +281,19 @@ def check_neighbor(ctx):
     ctx.decide(okq and oksel, "NEIGHBOR", site, (fi, q[0]) if q else fi,
                "two nearest hits per droplet (itself and its nearest neighbour); column 1 is returned, minus both radii on request",
                "nearest-neighbour distances are not taken from the second hit of a 2-nearest query on the droplet positions (minus the radii of both droplets exactly when requested)")
-    small = {v for s_, v in got}
-    ctx.decide("np.zeros((0,))" in small and "np.full(1, np.nan)" in small, "NEIGHBOR", site + ":small", fi, "0 droplets → empty, 1 droplet → NaN",
-               "emulsions with fewer than two droplets are not answered with an empty array / NaN")
+    small = {}
+    for n in fv.return_nodes():
+        for dec, val in value_cases(fv, n.stmt, n.stmt.value, stop=(dn or "", xn or "")):
+            if U(val) in ("np.zeros((0,))", "np.full(1, np.nan)"):
+                small.setdefault(U(val), []).append((truth_of(dec, "len(self) == 0"), truth_of(dec, "len(self) == 1")))
+    ok_small = small.get("np.zeros((0,))") == [(True, None)] and small.get("np.full(1, np.nan)") == [(False, True)]
+    ctx.decide(ok_small, "NEIGHBOR", site + ":small", fi, "0 droplets → empty array, exactly 1 droplet → NaN, decided before the tree query",
+               f"emulsions with fewer than two droplets are not answered with an empty array (len 0) / NaN (len 1): cases {small}")
+    for q in (f"{EM}.Emulsion.get_neighbor_distances", f"{EM}.Emulsion.get_pairwise_distances"):
+        g = m.func(q)
+        d_ = g.default_of("subtract_radius")
+        ctx.decide(isinstance(d_, ast.Constant) and d_.value is False, "NEIGHBOR", q + ":default", g, "centre distances by default (subtract_radius=False)",
+                   "subtract_radius does not default to False: the documented default is the centre-to-centre distance")
 
 
 def check_from_random(ctx):
